@@ -524,6 +524,7 @@ impl QueryRouter {
         let mut primary_set_based_on_activity = false;
         let mut visited_write_statement = false;
         let mut prev_inferred_shard = None;
+        let mut shard_conflict = None;
 
         if self.pool_settings.db_activity_based_routing {
             let db = self.pool_settings.db.clone();
@@ -588,7 +589,14 @@ impl QueryRouter {
                             // we can let them through as-is.
                             // This is basically building a database now :)
                             let inferred_shard = self.infer_shard(query);
-                            self.handle_inferred_shard(inferred_shard, &mut prev_inferred_shard)?;
+
+                            // Reported when the whole message has been looked at: a write
+                            // behind this statement still has to move it to the primary.
+                            if let Err(err) =
+                                self.handle_inferred_shard(inferred_shard, &mut prev_inferred_shard)
+                            {
+                                shard_conflict.get_or_insert(err);
+                            }
                         }
 
                         None => (),
@@ -624,7 +632,10 @@ impl QueryRouter {
             };
         }
 
-        Ok(())
+        match shard_conflict {
+            Some(err) => Err(err),
+            None => Ok(()),
+        }
     }
 
     fn handle_inferred_shard(
